@@ -75,7 +75,7 @@ func runC07(c *Ctx) {
 		}
 		ops = append(ops, at(y, 3*time.Second), TOp{Sess: y, Kind: tCall, URI: "p.stream", Opts: wamp.Dict{"receive_progress": true}},
 			at(x, 10*time.Second), TOp{Sess: x, Kind: tSub, URI: "t.later"},
-			at(y, time.Duration(g.Range(100, 240))*time.Second), TOp{Sess: y, Kind: tResume})
+			at(y, time.Duration(g.Range(240, 480))*time.Second), TOp{Sess: y, Kind: tResume})
 	}
 	c.Res.NOps = len(ops)
 	c.Res.Sample = opsSample(ops, c, 0, 36)
